@@ -107,6 +107,15 @@ fn main() {
             let rec = work::execute(&file.cfg, 1);
             println!("T {:016x} {:016x}", rec.sim.event_hash, work::transcript_hash(&rec));
         }
+        "opts" => {
+            // the workload options of every check (documentation aid)
+            for p in [
+                "C01", "C02", "C03", "C04", "C05", "C06", "C07", "C08", "C09", "C10", "C11", "C12",
+                "C13", "C15", "C17", "C18", "C19",
+            ] {
+                println!("{p} {:?}", gen::opts_for(p));
+            }
+        }
         "one" => {
             work::install_panic_hook();
             let prop = &args[2];
